@@ -144,6 +144,36 @@ func c04CheckUnit(e *c04Env, unit string, values []float64) (string, string) {
 	if i != len(values) {
 		return "", fmt.Sprintf("%d results for %d lines", i, len(values))
 	}
+	// One base unit under two spellings, seen by the same Filter values: a
+	// result holding the unit as written and the base unit written directly,
+	// in both orders. Filtering on the written unit selects only the
+	// measurement written that way; filtering on the base unit selects both.
+	if base != unit {
+		for _, text := range []string{
+			fmt.Sprintf("BenchmarkX 1 1 %s 2 %s\nBenchmarkX 1 3 %s 4 %s\n", unit, base, base, unit),
+			fmt.Sprintf("BenchmarkX 1 3 %s 4 %s\nBenchmarkX 1 1 %s 2 %s\n", base, unit, unit, base),
+		} {
+			fW, _ := NewFilter(".unit:" + strconv.Quote(unit))
+			fB, _ := NewFilter(".unit:" + strconv.Quote(base))
+			fN, _ := NewFilter("-.unit:" + strconv.Quote(unit))
+			e.rd.Reset(strings.NewReader(text), "mixed")
+			for e.rd.Scan() {
+				res, ok := e.rd.Result().(*benchfmt.Result)
+				if !ok || len(res.Values) != 2 {
+					return "", fmt.Sprintf("mixed spelling text %q: unexpected record", text)
+				}
+				mW, _ := fW.Match(res)
+				mB, _ := fB.Match(res)
+				mN, _ := fN.Match(res)
+				for i, v := range res.Values {
+					writtenHere := v.OrigUnit == unit
+					if mW.Test(i) != writtenHere || mN.Test(i) == writtenHere || !mB.Test(i) {
+						return "", fmt.Sprintf("text %q, measurement %d (%v %s, written %q): filter on written unit=%v (want %v), negated=%v, on base unit=%v (want true)", text, i, v.Value, v.Unit, v.OrigUnit, mW.Test(i), writtenHere, mN.Test(i), mB.Test(i))
+					}
+				}
+			}
+		}
+	}
 	// Unit metadata applies whether the written or the base unit is named.
 	for _, declared := range []string{unit, base} {
 		var rd benchfmt.Reader
